@@ -4,7 +4,7 @@
    [to_dense] lists the lines, i.e. it is the dense matrix (csr) or its transpose (csc). *)
 From Coq Require Import List ZArith Arith Lia.
 Import ListNotations.
-From PP Require Import Lib.Csr Model.C35 Proofs.C35 Proofs.C35_rl Proofs.C35_csr Proofs.C35_zero Proofs.C35_merge Proofs.C35_bdi.
+From PP Require Import Lib.Csr Model.C35 Proofs.C35 Proofs.C35_rl Proofs.C35_csr Proofs.C35_zero Proofs.C35_merge Proofs.C35_bdi Proofs.C35_blocks Proofs.C35_sqblocks.
 
 (* expand_index_pointers(lo, hi) is the concatenation of np.arange(lo_k, hi_k) over all k,
    for integer bounds of any sign and any order (empty ranges where hi_k <= lo_k),
@@ -239,6 +239,55 @@ Theorem C35_block_diag_index_rect :
 Proof. exact bdi2_closed_form. Qed.
 Print Assumptions C35_block_diag_index_rect.
 
+(* csr/csc_matrix_from_sparse_blocks (blocks already in the requested format): for every
+   non-empty list of well-formed blocks of any shapes (empty extents included) the stored lines
+   of the result are the lines of the blocks, one block after the other, with the minor indices
+   shifted by the total minor extent of the earlier blocks ... *)
+Theorem C35_sparse_blocks_rows :
+  forall bs : list csr, bs <> [] -> Forall (fun b => wf b = true) bs ->
+    exists C, csx_from_sparse_blocks bs = Ok C /\
+              nmaj C = sum_nat (map nmaj bs) /\ nmin C = sum_nat (map nmin bs) /\
+              rows C = bd_rows 0 bs.
+Proof. exact blocks_rows. Qed.
+Print Assumptions C35_sparse_blocks_rows.
+
+(* ... densely the block diagonal matrix of the dense (rectangular) blocks *)
+Theorem C35_sparse_blocks_dense :
+  forall bs : list csr, bs <> [] -> Forall (fun b => wf b = true) bs ->
+    exists C, csx_from_sparse_blocks bs = Ok C /\
+              to_dense C = bd_dense 0 (sum_nat (map nmin bs)) bs.
+Proof. exact blocks_dense. Qed.
+Print Assumptions C35_sparse_blocks_dense.
+
+Theorem C35_sparse_blocks_empty : csx_from_sparse_blocks [] = Err ValueErr.
+Proof. exact blocks_empty. Qed.
+Print Assumptions C35_sparse_blocks_empty.
+
+(* block_diag_matrix(vals, sz): dense row t lies in the block (first column off, size s) given
+   by [row_descr] and holds the next s values of vals in the columns off .. off+s-1, zeros
+   elsewhere: the block diagonal matrix of the row-major s x s reshapes of vals *)
+Theorem C35_block_diag_matrix :
+  forall (vals : list Z) (sz : list nat), length vals = sum_nat (map (fun s => s * s) sz) ->
+    exists C, block_diag_matrix vals sz = Ok C /\ nmaj C = sum_nat sz /\ nmin C = sum_nat sz /\
+              to_dense C = sq_dense (sum_nat sz) (row_descr 0 sz) vals.
+Proof. exact bdm_dense. Qed.
+Print Assumptions C35_block_diag_matrix.
+
+(* csr/csc_matrix_from_dense_blocks: nb blocks of size bs, values block after block and
+   line-major (the tile/reshape index construction of the code), same dense form *)
+Theorem C35_dense_blocks :
+  forall (vals : list Z) (bs nb : nat), 1 <= bs -> length vals = bs * bs * nb ->
+    exists C, csx_from_dense_blocks vals bs nb = Ok C /\ nmaj C = nb * bs /\ nmin C = nb * bs /\
+              to_dense C = sq_dense (nb * bs) (row_descr 0 (repeat bs nb)) vals.
+Proof. exact dense_blocks_dense. Qed.
+Print Assumptions C35_dense_blocks.
+
+Theorem C35_dense_blocks_size_error :
+  forall (vals : list Z) (bs nb : nat), length vals <> bs * bs * nb ->
+    csx_from_dense_blocks vals bs nb = Err ValueErr.
+Proof. exact dense_blocks_size_error. Qed.
+Print Assumptions C35_dense_blocks_size_error.
+
 (* ---------------------------------------------------------------- non-vacuity *)
 
 Example C35_nonvacuous_expand :
@@ -301,3 +350,24 @@ Example C35_nonvacuous_bdi :
   block_diag_index2 [2; 3; 1]%Z [1; 0; 2]%Z = Ok ([0; 1; 5; 5], [0; 0; 1; 2])%Z /\
   Forall (fun x => 0 <= x)%Z [1; 0; 2]%Z.
 Proof. split; [|split; [|split]]; try (vm_compute; reflexivity). repeat constructor; lia. Qed.
+
+Example C35_nonvacuous_blocks :
+  let B := {| nmaj := 1; nmin := 2; indptr := [0; 2]; indices := [1; 0]; data := [6; 5]%Z |} in
+  let E := {| nmaj := 0; nmin := 1; indptr := [0]; indices := []; data := [] |} in
+  Forall (fun b => wf b = true) [C35_ex; E; B] /\
+  (exists C, csx_from_sparse_blocks [C35_ex; E; B] = Ok C /\
+     to_dense C = [[1; 0; 12; 0; 0; 0; 0]; [0; 0; 0; 0; 0; 0; 0]; [9; 4; 0; 0; 0; 0; 0];
+                   [0; 0; 0; 0; 0; 5; 6]]%Z) /\
+  (exists C, block_diag_matrix [7; 1; 2; 3; 4]%Z [1; 2] = Ok C /\
+     to_dense C = [[7; 0; 0]; [0; 1; 2]; [0; 3; 4]]%Z) /\
+  sq_dense 3 (row_descr 0 [1; 2]) [7; 1; 2; 3; 4]%Z = [[7; 0; 0]; [0; 1; 2]; [0; 3; 4]]%Z /\
+  (exists C, csx_from_dense_blocks [1; 2; 3; 4; 5; 6; 7; 8]%Z 2 2 = Ok C /\
+     indices C = [0; 1; 0; 1; 2; 3; 2; 3] /\
+     to_dense C = [[1; 2; 0; 0]; [3; 4; 0; 0]; [0; 0; 5; 6]; [0; 0; 7; 8]]%Z).
+Proof.
+  cbv zeta. split; [repeat constructor|].
+  split; [eexists; split; vm_compute; reflexivity|].
+  split; [eexists; split; vm_compute; reflexivity|].
+  split; [vm_compute; reflexivity|].
+  eexists. split; [vm_compute; reflexivity|]. split; vm_compute; reflexivity.
+Qed.
